@@ -83,6 +83,89 @@ def const_default(node):
   return None
 
 
+def desugar_comprehensions(fn):
+  """`X = tuple(E for T in S)` / `X = [E for T in S]`  ->  `_c = []; for T in S: _c.append(E); X = tuple(_c)`
+  and `X = {K: V for T in S}`  ->  `_c = {}; for T in S: _c[K] = V; X = _c`  (single generator, no
+  condition).  Evaluation order and effects are those of the comprehension (a comprehension
+  evaluates S once and E per element, left to right; tuple() consumes the generator at once);
+  the comprehension's private scope for T is dropped, which only matters if T shadows a name used
+  later — checked and rejected."""
+  import copy as _copy
+  fn = _copy.deepcopy(fn)
+  counter = [0]
+  def free_loads(node, bound=frozenset()):
+    """Names read in `node` that are not bound by an enclosing comprehension of `node`."""
+    out = set()
+    if isinstance(node, (ast.ListComp, ast.SetComp, ast.GeneratorExp, ast.DictComp)):
+      b = set(bound)
+      for g_ in node.generators:
+        out |= free_loads(g_.iter, frozenset(b))
+        b |= {n.id for n in ast.walk(g_.target) if isinstance(n, ast.Name)}
+        for c_ in g_.ifs:
+          out |= free_loads(c_, frozenset(b))
+      for part in ([node.key, node.value] if isinstance(node, ast.DictComp) else [node.elt]):
+        out |= free_loads(part, frozenset(b))
+      return out
+    if isinstance(node, ast.Name):
+      return {node.id} if isinstance(node.ctx, ast.Load) and node.id not in bound else set()
+    for ch in ast.iter_child_nodes(node):
+      out |= free_loads(ch, bound)
+    return out
+  later_names = lambda stmts: set().union(*[free_loads(s_) for s_ in stmts]) if stmts else set()
+  def rewrite(stmts):
+    out = []
+    for idx, s_ in enumerate(stmts):
+      for fld in ('body', 'orelse', 'finalbody'):
+        if hasattr(s_, fld) and isinstance(getattr(s_, fld), list) and not isinstance(s_, ast.FunctionDef):
+          setattr(s_, fld, rewrite(getattr(s_, fld)))
+      v = s_.value if isinstance(s_, ast.Assign) and len(s_.targets) == 1 else None
+      comp = None
+      wrap = None
+      if isinstance(v, ast.Call) and isinstance(v.func, ast.Name) and v.func.id in ('tuple', 'list') \
+          and len(v.args) == 1 and not v.keywords and isinstance(v.args[0], ast.GeneratorExp):
+        comp, wrap = v.args[0], v.func.id
+      elif isinstance(v, (ast.ListComp, ast.DictComp)):
+        comp = v
+      if comp is None or len(comp.generators) != 1 or comp.generators[0].ifs or comp.generators[0].is_async:
+        out.append(s_)
+        continue
+      g = comp.generators[0]
+      tnames = {n.id for n in ast.walk(g.target) if isinstance(n, ast.Name)}
+      tgt_names = {n.id for n in ast.walk(s_.targets[0]) if isinstance(n, ast.Name)}
+      if (tnames - tgt_names) & later_names(stmts[idx + 1:]):
+        raise LookupError('comprehension variable is used after the comprehension: not desugared')
+      acc = f'_comp{counter[0]}'
+      counter[0] += 1
+      accn = lambda ctx: ast.Name(id=acc, ctx=ctx)
+      if isinstance(comp, ast.DictComp):
+        init = ast.Assign(targets=[accn(ast.Store())], value=ast.Dict(keys=[], values=[]))
+        body = ast.Assign(targets=[ast.Subscript(value=accn(ast.Load()), slice=comp.key, ctx=ast.Store())],
+                          value=comp.value)
+        fin = ast.Assign(targets=s_.targets, value=accn(ast.Load()))
+      else:
+        init = ast.Assign(targets=[accn(ast.Store())], value=ast.List(elts=[], ctx=ast.Load()))
+        body = ast.Expr(value=ast.Call(func=ast.Attribute(value=accn(ast.Load()), attr='append', ctx=ast.Load()),
+                                       args=[comp.elt], keywords=[]))
+        fin_v = accn(ast.Load()) if wrap in (None, 'list') else ast.Call(
+            func=ast.Name(id='tuple', ctx=ast.Load()), args=[accn(ast.Load())], keywords=[])
+        fin = ast.Assign(targets=s_.targets, value=fin_v)
+      loop = ast.For(target=g.target, iter=g.iter, body=[body], orelse=[])
+      for n_ in (init, loop, fin):
+        ast.copy_location(n_, s_)
+        for sub in ast.walk(n_):
+          if not hasattr(sub, 'lineno'):
+            ast.copy_location(sub, s_)
+        ast.fix_missing_locations(n_)
+      # the target of the loop is a Store context
+      for n_ in ast.walk(loop.target):
+        if hasattr(n_, 'ctx'):
+          n_.ctx = ast.Store()
+      out += [init, loop, fin]
+    return out
+  fn.body = rewrite(fn.body)
+  return fn
+
+
 def bind_ast(ctr):
   """Fills params / defaults / node of a contract from the real AST."""
   if ctr.abstract:
@@ -113,8 +196,10 @@ def bind_ast(ctr):
   dd = dict(defaults)
   dd.update(ctr.defaults)
   ctr.defaults = dd
+  ctr.hash, ctr.lineno, ctr.end_lineno = segment_hash(ctr.file, node)    # hash of the real text
+  if getattr(ctr, 'desugar', False):
+    node = desugar_comprehensions(node)
   ctr.node = node
-  ctr.hash, ctr.lineno, ctr.end_lineno = segment_hash(ctr.file, node)
   return node
 
 
